@@ -267,7 +267,7 @@ SAM_FIELD_EDITS = {
 
 
 def mutate_sam_fields(rng, fs):
-    fs = list(fs)
+    fs = list(fs) or [b'']
     m = rng.randrange(9)
     if m == 0:
         fs = fs[:rng.randrange(0, 11)]
@@ -549,14 +549,15 @@ FAI_EDITS = [b'', b'0', b'-1', b'x', b'1.5', b'9223372036854775807', b'922337203
 
 
 def mutate_fai(rng, lines):
-    lines = [list(l) for l in lines]
+    lines = [list(l) or [b''] for l in lines]
     k = rng.randrange(len(lines))
     l = lines[k]
     m = rng.randrange(7)
     if m <= 2:
         l[rng.randrange(len(l))] = rng.choice(FAI_EDITS)
     elif m == 3:
-        del l[rng.randrange(len(l))]
+        if len(l) > 1:
+            del l[rng.randrange(len(l))]
     elif m == 4:
         l.insert(rng.randrange(len(l) + 1), rng.choice(FAI_EDITS))
     elif m == 5:
